@@ -50,8 +50,10 @@ def _ps_kill(eng, st, self_v, args, kwargs, node):
 
 c = S.ext("os.kill", cite="os.kill(pid, sig): OSError(ESRCH) when the process does not exist")
 c.param("pid", T.Int).param("sig", T.Obj).event("os_kill", "pid", "sig").modifies("G.killed")
-c.ensures("marks", "G.killed[pid] and forall(Int, lambda q: implies(q != pid, G.killed[q] == old(G.killed[q])))")
-c.raises("may-fail", "OSError", post="G.killed[pid] and forall(Int, lambda q: implies(q != pid, G.killed[q] == old(G.killed[q])))")
+# only SIGKILL cannot be caught, blocked or ignored: any other signal may leave the process running
+KILLED_BY = "G.killed[pid] == (old(G.killed[pid]) or sig is obj(signal.SIGKILL)) and forall(Int, lambda q: implies(q != pid, G.killed[q] == old(G.killed[q])))"
+c.ensures("marks", KILLED_BY)
+c.raises("may-fail", "OSError", post=KILLED_BY)
 c.trusted = True
 S.ext_consts["signal.SIGKILL"] = __import__("pyvc.values", fromlist=["VConst"]).VConst("signal.SIGKILL")
 S.ext_consts["signal.SIGTERM"] = __import__("pyvc.values", fromlist=["VConst"]).VConst("signal.SIGTERM")
@@ -117,6 +119,7 @@ c = M.contract("_kill", props=["C02", "C06"])
 c.param("pid", T.Int)
 c.ensures("kill/signals-the-pid", "G.killed[pid] and forall(Int, lambda k: implies(old(G.killed[k]), G.killed[k]))")
 c.ensures("kill/one-signal", "log_count('os_kill') == 1 and log_arg('os_kill', 0, 0) == pid")
+c.ensures("kill/with-the-signal-that-cannot-be-caught-or-ignored", "log_arg('os_kill', 0, 1) is obj(signal.SIGKILL)", prop="C06")
 c.raises("kill/only-unexpected-oserror", "OSError", post="forall(Int, lambda k: implies(old(G.killed[k]), G.killed[k]))")
 c.raises_only("kill/only-oserror")
 c.modifies("G.killed")
